@@ -28,7 +28,7 @@ TRUSTED_BASE = [
 ASSUMPTIONS = ['static registration only (dynamic registration: C19 engine)', 'ASCII selectors']
 
 SELS = ['m.f', 'n.g', 'pkg.sub.h', 'k', 'n.sub.h', 'm.Foo', 'm.foo']
-MODS = ['alpha', 'beta.gamma', 'pkg.sub', 'zeta', 'other.alpha']
+MODS = ['alpha', 'beta.gamma', 'pkg.sub', 'zeta', 'other.alpha', 'Zed', 'Zed.sub', '_under']
 # classes with registered methods: two same-named classes in different modules sharing a method name, one unique
 CLASSES = [['cluster.local', 'Worker', ['run']], ['cluster.remote', 'Worker', ['run', 'stop']], ['m', 'Solo', ['go']]]
 
